@@ -3,7 +3,7 @@
    (before results, on results); what Python code receives is [res_val] of it. *)
 From Coq Require Import List Arith Bool ZArith.
 Import ListNotations.
-From PySM Require Import Impl.Engine Proofs.EngineFrame Proofs.EngineProofs.
+From PySM Require Import Impl.Engine Proofs.EngineFrame Proofs.EngineProofs Proofs.EngineResults.
 
 Theorem C14_none_when_no_results : res_val no_res = VNone.
 Proof. exact res_val_none. Qed.
@@ -48,6 +48,20 @@ Proof.
                                    eq_refl)).
 Qed.
 Print Assumptions C14_no_transition_none.
+
+(* guards' callers aside, the values returned by validators, exit, enter and after callbacks never
+   matter: two behaviours that act alike everywhere and return the same values from every callback
+   occurring in a before / on / guard list give, for every send, the same result and the same
+   configuration ([fine_machine Sx rm]: no callback of the set Sx, whose return values may differ,
+   occurs in such a list) *)
+Theorem C14_other_groups_never_contribute :
+  forall b1 b2 Sx rm,
+    (forall cb n, acts (b1 cb n) = acts (b2 cb n)) ->
+    (forall cb n, Sx cb = false -> ret (b1 cb n) = ret (b2 cb n)) ->
+    fine_machine Sx rm ->
+    forall fuel td c, send_rtc b1 rm fuel td c = send_rtc b2 rm fuel td c.
+Proof. exact results_ignore_other_groups. Qed.
+Print Assumptions C14_other_groups_never_contribute.
 
 Example C14_nonvacuous :
   res_val ([VNone], [VInt 0%Z]) = VList [VNone; VInt 0%Z] /\ res_val ([], [VInt 0%Z]) = VInt 0%Z
